@@ -151,12 +151,17 @@ def generate(seed, index, tier):
             case["faults"].append({"kind": "truncate", "at": k, "of": len(s)})
         case["s"] = s
         return case
+    pre = None
+    if st == 15 and (index // 16) % 2 == 0:
+        # the damaged data continues an existing, valid path (append after a crash-free prefix)
+        pre = gp.render(gp.gen_cmds(ch, ch.int(1, 4), mag=ch.choice(gp.MAGS), allow_zc=False), ch.int(0, 63))
+        case["pre"] = pre
     n = ch.int(1, 8)
     letters = None
     if ch.coin(0.3):
         # bias toward the command kinds with the least-guarded operand handling
         letters = ch.choice(["HhVv", "AaHhVvZz", "SsTtZz", "AaZzMm", "CcQqZz"])
-    cmds = gp.gen_cmds(ch, n, mag=ch.choice(gp.MAGS), letters=letters)
+    cmds = gp.gen_cmds(ch, n, mag=ch.choice(gp.MAGS), letters=letters, leading_move=pre is None)
     style = ch.int(0, 63)
     toks = gp.tokens_of(cmds)
     orig = gp.render_tokens(toks, style)
@@ -260,8 +265,18 @@ def execute(case, se, out, trace):
     long_input = bool(case.get("long"))
 
     # --- 1+2: parse into a fresh path under the step budget -------------------
+    pre = case.get("pre")
     p = se.Path()
-    budget = step_budget(s)
+    npre = 0
+    if pre is not None:
+        try:
+            p.parse(pre)
+        except Exception:
+            out.count("skip:prefix-path-raises")
+            return
+        npre = len(p)
+        out.count("fault:continuation-of-existing-path")
+    budget = step_budget(s) + (STEP_B * quad_term(pre + " " + s) if pre else 0)
     exc = None
     core.STEPS.start(budget)
     try:
@@ -286,7 +301,7 @@ def execute(case, se, out, trace):
         out.count("probe:parse-raised-ValueError")
 
     # constructor form: exception type only
-    if not long_input:
+    if not long_input and pre is None:
         try:
             se.Path(s)
             c_exc = None
@@ -302,9 +317,11 @@ def execute(case, se, out, trace):
         if gp.number_grammar_ambiguous(s):
             out.count("skip:prefix-number-grammar-ambiguous")
         else:
-            cut = gp.longest_valid_prefix(s)
+            cut = gp.longest_valid_prefix(s, continuation=pre is not None)
             ref = se.Path()
             try:
+                if pre is not None:
+                    ref.parse(pre)
                 ref.parse(s[:cut])
                 ref_ok = True
             except Exception:
@@ -371,6 +388,8 @@ def shrink(case):
 
     def mk(ns):
         c = {"s": ns, "orig": case.get("orig"), "faults": case["faults"], "stratum": case.get("stratum"), "shrunk": True}
+        if case.get("pre") is not None:
+            c["pre"] = case["pre"]
         if case.get("long") and len(ns) > 2000:
             c["long"] = True
         return c
